@@ -154,11 +154,11 @@ func vBreakingConfigEq(a, b BreakingConfig) bool {
 // vKnownF3Disabled gates the class of finding F3a: a disabled lint/breaking config is written as an empty section
 // (Disabled() is lost on the round trip).
 func vKnownF3Disabled(class bool) bool {
-	return class //TMP
+	return verifKnown("F3a-disabled-check-config-not-written", class)
 }
 
 // vKnownF3Includes gates the class of finding F3b: a v2 file whose only module is at "." with includes and no
 // excludes is collapsed to the module-less form by the writer, which has no place for the includes.
 func vKnownF3Includes(class bool) bool {
-	return class //TMP
+	return verifKnown("F3b-single-root-module-includes-not-written", class)
 }
